@@ -291,6 +291,31 @@ func scenING(s *sched.Sim, cfg Config, res *Result) {
 		tnq, _ := json.Marshal(fmt.Sprintf(`{ node(id: %q) { __typename id } n2: node(id: "no-such-id") { id } }`, w.EntityID(en, 1)))
 		addRaw("gql-node-root-typename", "application/json", `{"query": `+string(tnq)+`}`)
 	}
+	// a lookup with fragments on every entity type: each service that declares one of the selected
+	// fields gets it, the ones that do not know the object answer null - in whatever order
+	{
+		var frags []string
+		first := ""
+		for _, en := range w.EntityNames() {
+			d := w.Union.Types[en]
+			if d == nil {
+				continue
+			}
+			for _, f := range d.Fields {
+				if dd := w.Union.Types[f.Type.Name()]; (dd == nil || dd.Kind == ast.Scalar || dd.Kind == ast.Enum) && len(f.Arguments) == 0 && f.Name != "id" && !strings.HasPrefix(f.Name, "__") {
+					frags = append(frags, fmt.Sprintf("... on %s { %s }", en, f.Name))
+					if first == "" {
+						first = en
+					}
+					break
+				}
+			}
+		}
+		if len(frags) >= 2 {
+			q, _ := json.Marshal(fmt.Sprintf(`{ node(id: %q) { %s } }`, w.EntityID(first, 0), strings.Join(frags, " ")))
+			addRaw("gql-node-root-fragments-on-several-types", "application/json", `{"query": `+string(q)+`}`)
+		}
+	}
 	if wf.EmptyAbstract {
 		addRaw("gql-abstract-type-without-members", "application/json", `{"query": "{ qLonely { id } }"}`)
 		addRaw("gql-abstract-type-without-members-typename", "application/json", `{"query": "{ qLonely { __typename } }"}`)
